@@ -6,7 +6,7 @@
 use proptest::prelude::*;
 use serde::{Deserialize, Serialize};
 use versatiles_container::{PMTilesReader, PMTilesWriter, TilesWriterTrait, VersaTilesReader, VersaTilesWriter};
-use versatiles_core::io::{DataReaderBlob, DataWriterTrait};
+use versatiles_core::io::{DataReaderBlob, DataWriterFile, DataWriterTrait};
 use versatiles_core::types::{Blob, ByteRange, TilesReaderTrait};
 use vt::engine::{guard, Check, Fail, Obs};
 use vt::gen::{self, GenCfg};
@@ -212,11 +212,184 @@ fn oracle(case: &Case, obs: &mut Obs) -> Result<(), Fail> {
 	Ok(())
 }
 
+// ---------------------------------------------------------------------------------------
+// interrupted rewrite of an existing file, through the repository's own file writer
+// ---------------------------------------------------------------------------------------
+
+/// `DataWriterFile` that stops after `ops_left` medium writes (+ `cut` bytes of the next one)
+struct Interrupting {
+	inner: DataWriterFile,
+	ops_left: usize,
+	cut: usize,
+}
+
+impl Interrupting {
+	fn gate(&mut self, blob: &Blob, start: bool) -> anyhow::Result<bool> {
+		if self.ops_left == 0 {
+			if self.cut > 0 {
+				let part = Blob::from(&blob.as_slice()[..self.cut.min(blob.len() as usize)]);
+				if start {
+					self.inner.write_start(&part)?;
+				} else {
+					self.inner.append(&part)?;
+				}
+			}
+			anyhow::bail!("harness: interrupted");
+		}
+		self.ops_left -= 1;
+		Ok(true)
+	}
+}
+
+impl DataWriterTrait for Interrupting {
+	fn append(&mut self, blob: &Blob) -> anyhow::Result<ByteRange> {
+		self.gate(blob, false)?;
+		self.inner.append(blob)
+	}
+	fn write_start(&mut self, blob: &Blob) -> anyhow::Result<()> {
+		self.gate(blob, true)?;
+		self.inner.write_start(blob)
+	}
+	fn get_position(&mut self) -> anyhow::Result<u64> {
+		self.inner.get_position()
+	}
+	fn set_position(&mut self, position: u64) -> anyhow::Result<()> {
+		self.inner.set_position(position)
+	}
+}
+
+fn record(writer: Writer, set: &vt::model::TileSet) -> Result<Vec<Write>, Fail> {
+	let mut src = MemReader::new(set, "mem");
+	let mut rec = Recorder::default();
+	let res = guard(|| {
+		util::block_on(async {
+			match writer {
+				Writer::Versatiles => VersaTilesWriter::write_to_writer(&mut src, &mut rec).await,
+				Writer::Pmtiles => PMTilesWriter::write_to_writer(&mut src, &mut rec).await,
+			}
+		})
+	});
+	match res {
+		Ok(Ok(())) => Ok(rec.writes),
+		Ok(Err(e)) => fail!("crash:writer-error", "writer failed on a valid tile set: {e:#}"),
+		Err(p) => Err(Fail::from_panic("writer", &p)),
+	}
+}
+
+/// A complete container of an older generation (same coordinates, other payloads) lies at the
+/// path; the new generation is written to the same path through `DataWriterFile::from_path` and
+/// stops after k medium writes. What is on disk then must be rejected or hold the new tiles.
+fn rewrite_oracle(case: &Case, obs: &mut Obs) -> Result<(), Fail> {
+	let set = case.spec.materialise();
+	if set.nonempty().count() == 0 {
+		return Ok(());
+	}
+	let mut old_spec = case.spec.clone();
+	old_spec.tag = format!("{}-old", old_spec.tag);
+	old_spec.pay = vt::model::Pay::CoordText;
+	old_spec.really_compressed = false;
+	let old = old_spec.materialise();
+	let old_writes = record(case.writer, &old)?;
+	let old_image = image(&old_writes, old_writes.len(), 0);
+	let writes = record(case.writer, &set)?;
+	let n = writes.len();
+	let last = n - 1;
+	let mut mix = Mix::new(case.seed as u64 ^ 0x77);
+	// crash points: all prefixes when there are few writes, else the first and last ones and a sample
+	let mut points: Vec<(usize, usize)> = vec![];
+	let ks: Vec<usize> = if n <= 24 { (0..=n).collect() } else { (0..4).chain(n - 4..=n).chain((0..12).map(|_| mix.below(n as u64) as usize)).collect() };
+	for k in ks {
+		points.push((k, 0));
+		if k < n {
+			let len = writes[k].bytes.len();
+			if len > 1 {
+				points.push((k, 1 + mix.below(len as u64 - 1) as usize));
+			}
+			if k == last {
+				for cut in [1usize, 7, 8, 32, 56, 64, 96, 97, 98, 99, 100, 120, len - 1] {
+					if cut < len {
+						points.push((k, cut));
+					}
+				}
+			}
+		}
+	}
+	points.sort();
+	points.dedup();
+	let ext = match case.writer {
+		Writer::Versatiles => "versatiles",
+		Writer::Pmtiles => "pmtiles",
+	};
+	let path = util::tmp_path(&format!(".{ext}"));
+	let _g = util::TmpGuard(path.clone());
+	let (mut accepted, mut rejected, mut header_cuts) = (0u64, 0u64, 0u64);
+	for (k, cut) in &points {
+		std::fs::write(&path, &old_image).map_err(|e| Fail::new("harness:io", format!("{e}")))?;
+		let mut src = MemReader::new(&set, "mem");
+		let res = guard(|| {
+			util::block_on(async {
+				let inner = DataWriterFile::from_path(&path)?;
+				let mut w = Interrupting { inner, ops_left: *k, cut: *cut };
+				match case.writer {
+					Writer::Versatiles => VersaTilesWriter::write_to_writer(&mut src, &mut w).await,
+					Writer::Pmtiles => PMTilesWriter::write_to_writer(&mut src, &mut w).await,
+				}
+			})
+		});
+		let complete = *k == n;
+		match res {
+			Ok(Ok(())) => ensure_prop!(complete, "harness:not-interrupted", "the writer finished although it was stopped after {k} of {n} writes"),
+			Ok(Err(e)) => ensure_prop!(!complete && format!("{e:#}").contains("harness: interrupted"), "crash:writer-error", "rewrite stopped after {k} of {n} writes: unexpected writer error {e:#}"),
+			// a writer that unwraps the medium's error dies at the interruption: a crash like any other
+			Err(p) if !complete && p.message.contains("harness: interrupted") => {}
+			Err(p) => return Err(Fail::from_panic("writer (rewrite)", &p)),
+		}
+		if *k == last && *cut > 0 {
+			header_cuts += 1;
+		}
+		let opened = guard(|| {
+			util::block_on(async {
+				match case.writer {
+					Writer::Versatiles => VersaTilesReader::open_path(&path).await.map(|r| Box::new(r) as Box<dyn TilesReaderTrait>),
+					Writer::Pmtiles => PMTilesReader::open_path(&path).await.map(|r| Box::new(r) as Box<dyn TilesReaderTrait>),
+				}
+			})
+		});
+		let at = format!("rewrite of an existing {ext} file ({} bytes, {} tiles) stopped after {k} of {n} writes + {cut} bytes of write {k}", old_image.len(), old.nonempty().count());
+		match opened {
+			Ok(Ok(r)) => {
+				accepted += 1;
+				for (c, want) in set.nonempty() {
+					match guard(|| vt::model::lookup(r.as_ref(), c)) {
+						Ok(Ok(Some(got))) if &got == want => {}
+						Ok(Ok(Some(got))) => fail!("crash:accepted-with-wrong-tile", "{at}: the file opens and tile {c} has {} bytes ({}) instead of {} ({})", got.len(), util::hex_short(&got), want.len(), util::hex_short(want)),
+						Ok(Ok(None)) => fail!("crash:accepted-with-missing-tile", "{at}: the file opens as a container that lacks tile {c}"),
+						Ok(Err(e)) => fail!("crash:accepted-with-unreadable-tile", "{at}: the file opens but tile {c} cannot be read: {e}"),
+						Err(p) => fail!("crash:accepted-with-unreadable-tile", "{at}: the file opens but reading tile {c} panics: {}", p.message),
+					}
+				}
+			}
+			_ => {
+				rejected += 1;
+				ensure_prop!(!complete, "crash:complete-file-rejected", "{at}: the completely rewritten file is rejected by the reader");
+			}
+		}
+	}
+	obs.count("crash-images", points.len() as u64);
+	obs.count("images-accepted-intact", accepted);
+	obs.count("images-rejected", rejected);
+	obs.count("cuts-inside-final-header", header_cuts);
+	obs.label(format!("writer:{:?}", case.writer));
+	obs.label(if old_image.len() > image(&writes, n, 0).len() { "old-file-longer" } else { "old-file-shorter-or-equal" });
+	obs.nontrivial(header_cuts > 0 && n >= 3);
+	Ok(())
+}
+
 fn main() {
 	let mut check = Check::from_args(
 		"C12",
 		"fault_enumeration",
-		"tile-set specs (1-300 tiles, all shape classes, 3 compressions) x writer in {versatiles, pmtiles} run against a recording DataWriterTrait; enumerated crash images per case: every prefix of the recorded write sequence, every byte cut of every write of <= 256 bytes and of the final header write, first/last/every 64th/4 random cuts of larger writes ('all-byte-cuts' cases: every byte cut of every write); oracle: the reader rejects the image (error; a panic is counted and left to C19) or returns every source tile intact, and the complete image must be accepted; evaluations counts tile sets, the counters crash-images / cuts-inside-final-header count images; non-trivial = case with >= 3 writes that includes cuts inside the final header write",
+		"tile-set specs (1-300 tiles, all shape classes, 3 compressions) x writer in {versatiles, pmtiles} run against a recording DataWriterTrait; enumerated crash images per case: every prefix of the recorded write sequence, every byte cut of every write of <= 256 bytes and of the final header write, first/last/every 64th/4 random cuts of larger writes ('all-byte-cuts' cases: every byte cut of every write); oracle: the reader rejects the image (error; a panic is counted and left to C19) or returns every source tile intact, and the complete image must be accepted; phases rewrite-*: a complete older container (same coordinates, other payloads) lies at the path, the new tile set is written to the same path through DataWriterFile::from_path wrapped in a writer that stops after k medium writes (all k for <= 24 writes, else first/last 4 and 12 sampled; one random cut per write and 13 cuts of the final header), the file is opened by path; evaluations counts tile sets, the counters crash-images / cuts-inside-final-header count images; non-trivial = case with >= 3 writes that includes cuts inside the final header write",
 	);
 	check.assume("writes reach the medium in program order (no reordering by the OS or a buffered writer); a torn write leaves a prefix of the write; unwritten regions read as zero bytes");
 	vt::engine::watchdog(3600);
@@ -226,6 +399,7 @@ fn main() {
 		check.enumerate(&format!("regress-{w:?}").to_lowercase(), reg, false, oracle);
 		check.phase(&name, check.cases(1000, 30_000), || strategy(w, false), oracle);
 		check.phase(&format!("all-byte-{name}"), check.cases(500, 15_000), || strategy(w, true), oracle);
+		check.phase(&format!("rewrite-{w:?}").to_lowercase(), check.cases(300, 8000), || strategy(w, false), rewrite_oracle);
 	}
 	check.finish();
 }
